@@ -93,9 +93,13 @@ pub fn compress(c: u8, data: &[u8], p: Params) -> Vec<u8> {
 pub fn decompress_lenient(c: u8, data: &[u8], limit: usize) -> (Vec<u8>, bool) {
     fn drain(mut r: impl Read, limit: usize) -> (Vec<u8>, bool) {
         let mut out = Vec::new();
-        let mut buf = vec![0u8; 16384];
+        let mut buf = vec![0u8; 4096];
         loop {
-            match r.read(&mut buf) {
+            // a reader that pulls varints byte by byte sees every byte a decoder can deliver before it hits
+            // the broken spot, whereas one big read() loses what was decoded inside the failing call: read
+            // byte-wise (first MiB) to get the maximal prefix
+            let want = if out.len() < (1 << 20) { 1 } else { buf.len() };
+            match r.read(&mut buf[..want]) {
                 Ok(0) => return (out, false),
                 Ok(n) => {
                     out.extend_from_slice(&buf[..n]);
